@@ -82,8 +82,9 @@ package api
 //@                    && optCopyI64(result.Memory.Limit, r.Memory.Limit) && optCopyI64(result.Memory.Reservation, r.Memory.Reservation) && optCopyI64(result.Memory.Swap, r.Memory.Swap) && optCopyI64(result.Memory.Kernel, r.Memory.Kernel) && optCopyI64(result.Memory.KernelTcp, r.Memory.KernelTcp) && optCopyU64(result.Memory.Swappiness, r.Memory.Swappiness) && optCopyBool(result.Memory.DisableOomKiller, r.Memory.DisableOomKiller) && optCopyBool(result.Memory.UseHierarchy, r.Memory.UseHierarchy))
 //@   ensures [cpu]    r != nil ==> (r.Cpu == nil ==> result.Cpu == nil) && (r.Cpu != nil ==> result.Cpu != nil && fresh(result.Cpu)
 //@                    && optCopyU64(result.Cpu.Shares, r.Cpu.Shares) && optCopyI64(result.Cpu.Quota, r.Cpu.Quota) && optCopyU64(result.Cpu.Period, r.Cpu.Period) && optCopyI64(result.Cpu.RealtimeRuntime, r.Cpu.RealtimeRuntime) && optCopyU64(result.Cpu.RealtimePeriod, r.Cpu.RealtimePeriod) && result.Cpu.Cpus == r.Cpu.Cpus && result.Cpu.Mems == r.Cpu.Mems)
-//@   ensures [hp]     r != nil ==> len(result.HugepageLimits) == len(r.HugepageLimits) && (len(r.HugepageLimits) > 0 ==> fresh(result.HugepageLimits))
+//@   ensures [hp]     r != nil ==> len(result.HugepageLimits) == len(r.HugepageLimits) && (len(r.HugepageLimits) > 0 ==> fresh(result.HugepageLimits)) && (len(r.HugepageLimits) == 0 ==> result.HugepageLimits == nil)
 //@                    && (forall i int :: 0 <= i && i < len(r.HugepageLimits) ==> r.HugepageLimits[i].PageSize == result.HugepageLimits[i].PageSize && r.HugepageLimits[i].Limit == result.HugepageLimits[i].Limit && fresh(result.HugepageLimits[i]))
+//@   ensures [hpnn]   r != nil ==> noNilHPs(result.HugepageLimits)
 //@   ensures [uni]    r != nil ==> (old(len(r.Unified)) == 0 ==> result.Unified == nil) && (old(len(r.Unified)) != 0 ==> result.Unified != nil && fresh(result.Unified))
 //@                    && (forall k string :: has(result.Unified, k) == old(has(r.Unified, k)) && result.Unified[k] == old(r.Unified[k]))
 //@   ensures [pids]   r != nil ==> (r.Pids == nil ==> result.Pids == nil) && (r.Pids != nil ==> result.Pids != nil && fresh(result.Pids) && result.Pids.Limit == r.Pids.Limit)
@@ -91,6 +92,7 @@ package api
 //@   ensures [nodev]  r != nil ==> len(result.Devices) == 0
 //@   loop 1 invariant 0 <= idx + 1 && idx + 1 <= len(r.HugepageLimits) && allocated(o) && fresh(o) && len(o.HugepageLimits) == idx + 1 && (idx >= 0 ==> fresh(o.HugepageLimits)) && (idx == 0 - 1 ==> o.HugepageLimits == nil)
 //@   loop 1 invariant forall i int :: 0 <= i && i <= idx ==> r.HugepageLimits[i].PageSize == o.HugepageLimits[i].PageSize && r.HugepageLimits[i].Limit == o.HugepageLimits[i].Limit && fresh(o.HugepageLimits[i])
+//@   loop 1 invariant noNilHPs(o.HugepageLimits)
 //@   loop 1 invariant o.Memory == pre(o.Memory) && o.Cpu == pre(o.Cpu) && sep(base(o.HugepageLimits), base(r.HugepageLimits))
 //@   loop 2 invariant allocated(o) && fresh(o) && o.Unified != nil && fresh(o.Unified) && o.Unified != r.Unified
 //@   loop 2 invariant forall k string :: visited(k) ==> has(o.Unified, k) && o.Unified[k] == r.Unified[k]
